@@ -673,7 +673,12 @@ _C12 = dict(file="src/batchie/retrospective.py", out="SrcReveal.v", imports="Mod
 C12_REVEAL = dict(
     _C12, func="reveal_plates", name="src_reveal_plates", pyparams=["screen", "plate_ids"],
     params=[("screen", "screen"), ("plate_ids", "list Z")], returns="screen",
-    vars={"reveal_mask": "list bool", "revealed_values": "list Z"},
+    vars={"reveal_mask": "list bool", "revealed_values": "list Z", "plate_id": "Z"},
+    # the per-plate zero guard (fix fx5): the loop over np.unique(screen.plate_ids[reveal_mask]); both raises carry the same message
+    prims=_SCREEN_ATTRS + _NUMPY + [
+        ("np.unique(__a)", "sort_uniq Z.compare {a}", "list Z", {"a": "list Z"}),              # sorted, duplicate-free
+        ("screen.plate_ids == __p", "np_eq_Z (s_pids screen') {p}", "list bool", {"p": "Z"}),  # elementwise, on ints
+    ],
     raises=[("All revealed observations were 0", 8), ("NaN found in revealed observations", 9)],
 )
 C12_MASK = dict(
